@@ -128,6 +128,12 @@ def _page_case(draw):
             "today": draw(st.sampled_from(["2024-06-15", "2000-01-03"]))}
 
 
+def sample_view(case):
+    if "levels" in case:
+        return f"skeleton {case['levels']} x {case['k']} decorated pages"
+    return P.render(case["page"], case["today"])[0]
+
+
 def parts(tier):
     from ..engine import load_findings
 
